@@ -231,3 +231,171 @@ Lemma pat_match_false p s : pat_match p s = false <-> ~ pat_matches p s.
 Proof.
   rewrite <- pat_match_spec. destruct (pat_match p s); split; congruence.
 Qed.
+
+(* ---------- case-insensitive matching: the inline flag (?i) at the start of an expression ----------
+   ASCII: the case variants of a byte are its lower-case and its upper-case form.  (?i) makes a
+   literal and a character class match a byte iff one of the byte's case variants is the literal /
+   is in the class (negation is applied after that, as Go does); `.` is unaffected. *)
+Definition lowerb (b : byte) : byte :=
+  if Nat.leb 65 (bnat b) && Nat.leb (bnat b) 90
+  then match Byte.of_nat (bnat b + 32) with Some x => x | None => b end else b.
+Definition upperb (b : byte) : byte :=
+  if Nat.leb 97 (bnat b) && Nat.leb (bnat b) 122
+  then match Byte.of_nat (bnat b - 32) with Some x => x | None => b end else b.
+
+Definition all_bytes : list byte :=
+  flat_map (fun n => match Byte.of_nat n with Some b => [b] | None => [] end) (seq 0 256).
+
+Definition fold_in (b : byte) (rs : list (byte * byte)) : bool :=
+  in_ranges (lowerb b) rs || in_ranges (upperb b) rs.
+Definition fold_ranges (rs : list (byte * byte)) : list (byte * byte) :=
+  map (fun b => (b, b)) (filter (fun b => fold_in b rs) all_bytes).
+
+Fixpoint fold_regex (r : regex) : regex :=
+  match r with
+  | REmpty => REmpty
+  | REps => REps
+  | RChr b => RClass false (fold_ranges [(b, b)])
+  | RAny => RAny
+  | RClass neg rs => RClass neg (fold_ranges rs)
+  | RCat a b => RCat (fold_regex a) (fold_regex b)
+  | RAlt a b => RAlt (fold_regex a) (fold_regex b)
+  | RStar a => RStar (fold_regex a)
+  end.
+Definition fold_pattern (p : pattern) : pattern :=
+  {| p_bos := p_bos p; p_body := fold_regex (p_body p); p_eos := p_eos p |}.
+
+(* x' is a case variant of x *)
+Definition variant (x' x : byte) : Prop := x' = lowerb x \/ x' = upperb x.
+Definition variants (s' s : str) : Prop := Forall2 variant s' s.
+
+Lemma all_bytes_complete c : existsb (beqb c) all_bytes = true.
+Proof. destruct c; vm_compute; reflexivity. Qed.
+
+Lemma in_range_single c b : in_range c (b, b) = beqb c b.
+Proof.
+  unfold in_range. simpl. destruct (beqb c b) eqn:E.
+  - apply beqb_eq in E; subst. now rewrite Nat.leb_refl.
+  - destruct (Nat.leb (bnat b) (bnat c)) eqn:E1, (Nat.leb (bnat c) (bnat b)) eqn:E2; try reflexivity.
+    apply Nat.leb_le in E1, E2. assert (c = b) by (apply bnat_inj; lia). subst.
+    assert (beqb b b = true) by now apply beqb_eq. congruence.
+Qed.
+
+Lemma in_fold_ranges c rs : in_ranges c (fold_ranges rs) = fold_in c rs.
+Proof.
+  unfold fold_ranges, in_ranges. pose proof (all_bytes_complete c) as H.
+  induction all_bytes as [|x l IH]; simpl in *; [discriminate|].
+  destruct (beqb c x) eqn:E.
+  - apply beqb_eq in E; subst x. destruct (fold_in c rs) eqn:F; simpl.
+    + now rewrite in_range_single, (proj2 (beqb_eq c c) eq_refl).
+    + clear IH H. induction l as [|y l IH]; simpl; [reflexivity|].
+      destruct (fold_in y rs) eqn:Fy; simpl; [|exact IH].
+      rewrite in_range_single. destruct (beqb c y) eqn:Ey; [|exact IH].
+      apply beqb_eq in Ey; subst. congruence.
+  - simpl in H. destruct (fold_in x rs); simpl; [|now apply IH].
+    rewrite in_range_single, E. simpl. now apply IH.
+Qed.
+
+Lemma variant_newline x : variant newline x -> x = newline.
+Proof. unfold variant. destruct x; vm_compute; intros [H|H]; congruence. Qed.
+Lemma variant_refl_some x : exists x', variant x' x /\ (x <> newline -> x' <> newline).
+Proof.
+  exists (lowerb x). split; [now left|]. intros H E. apply H. apply variant_newline. left. now symmetry.
+Qed.
+
+(* a negated class is negated AFTER folding ((?i)[^a] excludes both a and A), so it is not the
+   set of bytes with a case variant in [^a]; the string-level statement below is for expressions
+   without negated classes, the byte-level statement [fold_class_spec] covers every class *)
+Fixpoint no_neg_class (r : regex) : bool :=
+  match r with
+  | RClass neg _ => negb neg
+  | RCat a b | RAlt a b => no_neg_class a && no_neg_class b
+  | RStar a => no_neg_class a
+  | _ => true
+  end.
+
+Lemma fold_class_spec neg rs c :
+  lang (fold_regex (RClass neg rs)) [c] <-> xorb neg (in_ranges (lowerb c) rs || in_ranges (upperb c) rs) = true.
+Proof.
+  simpl. split.
+  - intros H. inversion H; subst. now rewrite in_fold_ranges in *.
+  - intros H. constructor. now rewrite in_fold_ranges.
+Qed.
+
+Lemma variants_app s1' s2' s : variants (s1' ++ s2') s ->
+  exists s1 s2, s = s1 ++ s2 /\ variants s1' s1 /\ variants s2' s2.
+Proof.
+  revert s. induction s1' as [|x t IH]; intros s V; simpl in V.
+  - exists [], s. repeat split; [constructor | exact V].
+  - inversion V as [|? y ? s0 Hv V']; subst. destruct (IH _ V') as (s1 & s2 & -> & V1 & V2).
+    exists (y :: s1), s2. repeat split; [constructor; assumption | exact V2].
+Qed.
+Lemma variants_app_intro s1' s1 s2' s2 : variants s1' s1 -> variants s2' s2 -> variants (s1' ++ s2') (s1 ++ s2).
+Proof. intros V1 V2. induction V1; simpl; [exact V2 | constructor; assumption]. Qed.
+
+(* the language of the folded expression: the strings that have a case variant in the language *)
+Theorem fold_regex_spec r : no_neg_class r = true ->
+  forall s, lang (fold_regex r) s <-> exists s', lang r s' /\ variants s' s.
+Proof.
+  induction r as [| | b | | neg rs | a IHa b IHb | a IHa b IHb | a IHa]; intros NN s; simpl in *.
+  - split; [intros H; inversion H | intros (s' & H & _); inversion H].
+  - split.
+    + intros H; inversion H; subst. exists []. split; constructor.
+    + intros (s' & H & V). inversion H; subst. inversion V; subst. constructor.
+  - split.
+    + intros H. inversion H as [| | | ? ? c Hc | | | | |]; subst. rewrite xorb_false_l in Hc.
+      rewrite in_fold_ranges in Hc. unfold fold_in, in_ranges in Hc. simpl in Hc.
+      rewrite !in_range_single in Hc.
+      exists [b]. split; [constructor|]. constructor; [|constructor].
+      repeat (apply orb_prop in Hc; destruct Hc as [Hc|Hc]); try discriminate;
+        apply beqb_eq in Hc; [left | right]; congruence.
+    + intros (s' & H & V). inversion H; subst. inversion V as [|? c ? ? Hv V']; subst. inversion V'; subst.
+      constructor. rewrite xorb_false_l, in_fold_ranges. unfold fold_in, in_ranges. simpl.
+      rewrite !in_range_single.
+      destruct Hv as [-> | ->]; rewrite (proj2 (beqb_eq _ _) eq_refl); simpl; rewrite ?orb_true_r; reflexivity.
+  - split.
+    + intros H. inversion H; subst. destruct (variant_refl_some b) as (x' & Hv & Hn).
+      exists [x']. split; [constructor; auto | constructor; [exact Hv | constructor]].
+    + intros (s' & H & V). inversion H as [| | ? Hb | | | | | |]; subst.
+      inversion V as [|? c ? ? Hv V']; subst. inversion V'; subst.
+      constructor. intros ->. apply Hb. destruct Hv as [-> | ->]; vm_compute; reflexivity.
+  - destruct neg; [discriminate|]. split.
+    + intros H. inversion H as [| | | ? ? c Hc | | | | |]; subst. rewrite xorb_false_l, in_fold_ranges in Hc.
+      unfold fold_in in Hc. apply orb_prop in Hc. destruct Hc as [Hc|Hc].
+      * exists [lowerb c]. split; [apply LClass; now rewrite xorb_false_l | constructor; [now left | constructor]].
+      * exists [upperb c]. split; [apply LClass; now rewrite xorb_false_l | constructor; [now right | constructor]].
+    + intros (s' & H & V). inversion H as [| | | ? ? c' Hc | | | | |]; subst. rewrite xorb_false_l in Hc.
+      inversion V as [|? c ? ? Hv V']; subst. inversion V'; subst. constructor.
+      rewrite xorb_false_l, in_fold_ranges. unfold fold_in.
+      destruct Hv as [-> | ->]; rewrite Hc; simpl; rewrite ?orb_true_r; reflexivity.
+  - apply andb_true_iff in NN as [Na Nb]. split.
+    + intros H. inversion H as [| | | | r1 r2 s1 s2 H1 H2 | | | |]; subst.
+      apply (IHa Na) in H1 as (s1' & L1 & V1). apply (IHb Nb) in H2 as (s2' & L2 & V2).
+      exists (s1' ++ s2'). split; [now constructor | now apply variants_app_intro].
+    + intros (s' & H & V). inversion H as [| | | | r1 r2 s1' s2' H1 H2 | | | |]; subst.
+      apply variants_app in V as (s1 & s2 & -> & V1 & V2).
+      constructor; [apply (IHa Na) | apply (IHb Nb)]; eauto.
+  - apply andb_true_iff in NN as [Na Nb]. split.
+    + intros H. inversion H as [| | | | | r1 r2 s0 H1 | r1 r2 s0 H1 | |]; subst.
+      * apply (IHa Na) in H1 as (s' & L & V). exists s'. split; [now apply LAltL | exact V].
+      * apply (IHb Nb) in H1 as (s' & L & V). exists s'. split; [now apply LAltR | exact V].
+    + intros (s' & H & V). inversion H; subst.
+      * apply LAltL. apply (IHa Na). eauto.
+      * apply LAltR. apply (IHb Nb). eauto.
+  - split.
+    + intros H. remember (RStar (fold_regex a)) as rr eqn:Er.
+      induction H as [| | | | | | | r0 | r0 s1 s2 H1 _ H2 IH2]; try discriminate.
+      * exists []. split; constructor.
+      * injection Er as ->. destruct (IH2 eq_refl) as (s2' & L2 & V2).
+        apply (IHa NN) in H1 as (s1' & L1 & V1).
+        exists (s1' ++ s2'). split; [now constructor | now apply variants_app_intro].
+    + intros (s' & H & V). remember (RStar a) as rr eqn:Er. revert s V.
+      induction H as [| | | | | | | r0 | r0 s1' s2' H1 _ H2 IH2]; intros sx V; try discriminate.
+      * inversion V; subst. constructor.
+      * injection Er as ->. apply variants_app in V as (s1 & s2 & -> & V1 & V2).
+        constructor; [apply (IHa NN); eauto | now apply IH2].
+Qed.
+
+(* regexp.MatchString("(?i)" ++ p, s) *)
+Definition pat_match_fold (fold : bool) (p : pattern) (s : str) : bool :=
+  pat_match (if fold then fold_pattern p else p) s.
